@@ -8,7 +8,9 @@
 //!     4-byte words are pairwise distinct and non-zero, and real filters built from 1..3
 //!     `ServerId`s): events `Request(new cookie)` and `Deliver(target, shape)` with target in
 //!     {outstanding request, most recent stale request, very first request, never-issued
-//!     cookie} and shape in {exact, 4 bytes short, 4 bytes long, half, double, empty}: every
+//!     cookie} and payload length in {exact, every length requested-8 ..= requested+8 (all
+//!     residues modulo 4), empty, one byte, half, double}, the response value built with the
+//!     wire decoder `ReferenceIdResponse::decode` (the constructor refuses unaligned lengths): every
 //!     order, with duplicates and stale / mismatched answers, until the filter is complete
 //!     and through the following rounds (the state graph is finite because cookies are
 //!     canonicalised by role). After every transition the probe view of the real object is
@@ -21,8 +23,10 @@
 //!  5. End to end: a real NTPv5 `NtpSource` polled against a real `Server`; the base run of
 //!     34 answered polls with every placement of <= 2 (quick) / <= 3 (thorough) deviations
 //!     from {answer lost, stale answer replayed before the fresh one, fresh answer
-//!     duplicated}; requests are read back from the emitted datagrams. Plus hand-framed
-//!     chunk requests (offset x length) sent to the real server.
+//!     duplicated}; requests are read back from the emitted datagrams. Genuine server answers
+//!     whose chunk field is re-framed by hand to carry 0, 1, 8..=24 (not 16) bytes are fed to
+//!     the source at every poll position (alone and combined with the other deviations).
+//!     Plus hand-framed chunk requests (offset x length) sent to the real server.
 use std::collections::BTreeSet;
 use std::net::{IpAddr, Ipv4Addr, Ipv6Addr, SocketAddr};
 use std::sync::atomic::{AtomicU64, Ordering};
@@ -125,31 +129,43 @@ struct S {
     hist: Vec<u8>,
 }
 
-const SHAPES: usize = 6; // exact, short, long, half, double, empty
+const SHAPES: usize = 21; // see shape_len
 const TARGETS: usize = 4; // current, stale, first, fresh
 
+/// Payload length of an answer shape for requested chunk size `cs`:
+/// 0 = exact; 1..=8 = cs-8 .. cs-1; 9..=16 = cs+1 .. cs+8 (every residue modulo 4 on both
+/// sides); 17 = empty; 18 = one byte; 19 = half; 20 = double (17..20 only when they fall
+/// outside the +-8 window, so no length is enumerated twice).
 fn shape_len(shape: usize, cs: u16) -> Option<usize> {
-    let cs = cs as usize;
-    let l = match shape {
+    let cs = cs as isize;
+    let l: isize = match shape {
         0 => cs,
-        1 => cs - 4,
-        2 => cs + 4,
-        3 => cs / 2,
-        4 => cs * 2,
-        _ => 0,
+        1..=8 => cs - 9 + shape as isize,
+        9..=16 => cs + shape as isize - 8,
+        17 => 0,
+        18 => 1,
+        19 => cs / 2,
+        _ => cs * 2,
     };
-    // ReferenceIdResponse only exists for lengths that are multiples of 4 and <= 512
-    if l % 4 != 0 || l > 512 || (shape != 0 && l == cs) {
+    if l < 0 {
         return None;
     }
-    // shapes that coincide in length are the same event
-    if shape == 5 && cs == 4 {
-        return None; // same as "short"
+    if shape >= 17 && l >= cs - 8 && l <= cs + 8 {
+        return None;
     }
-    if shape == 3 && cs == 8 {
-        return None; // same as "short"
+    Some(l as usize)
+}
+
+fn shape_name(shape: usize) -> String {
+    match shape {
+        0 => "exact".to_string(),
+        1..=8 => format!("{}", shape as isize - 9),
+        9..=16 => format!("+{}", shape - 8),
+        17 => "empty".to_string(),
+        18 => "1byte".to_string(),
+        19 => "half".to_string(),
+        _ => "double".to_string(),
     }
-    Some(l)
 }
 
 fn event_name(e: u8) -> String {
@@ -158,7 +174,7 @@ fn event_name(e: u8) -> String {
     } else {
         let t = ((e - 1) as usize) / SHAPES;
         let s = ((e - 1) as usize) % SHAPES;
-        format!("Deliver({},{})", ["current", "stale", "first", "fresh"][t], ["exact", "short", "long", "half", "double", "empty"][s])
+        format!("Deliver({},{})", ["current", "stale", "first", "fresh"][t], shape_name(s))
     }
 }
 
@@ -247,7 +263,7 @@ fn apply(sc: &SearchCtx, s: &S, e: u8, obs: Option<&mut Vec<String>>) -> Option<
                 *b = srv[start + i];
             }
         }
-        let resp = ReferenceIdResponse::new(&bytes)?;
+        let resp = ReferenceIdResponse::decode(&bytes);
         let expect_accept = t == 0 && shape == 0;
         let got = match common::catch(|| real.handle_response(pb::cookie(target.cookie), &resp).is_ok()) {
             Ok(g) => g,
@@ -747,12 +763,56 @@ fn serve(server: &mut Server<FixedClock>, req: &[u8]) -> Option<Vec<u8>> {
     }
 }
 
-fn deliver(src: &mut NtpSource<NullCtl>, resp: &[u8]) {
+fn deliver_raw(src: &mut NtpSource<NullCtl>, resp: &[u8]) {
     for _ in src.handle_incoming(resp, NtpTimestamp::from_fixed_int(0xE000_0000_0000_0100), NtpTimestamp::from_fixed_int(0xE000_0000_0000_0400)) {}
 }
 
+std::thread_local! {
+    /// first panic of the code under test during the current end-to-end run
+    static E2E_PANIC: std::cell::RefCell<Option<String>> = const { std::cell::RefCell::new(None) };
+}
+
+/// Deliver a datagram to the source; a panic of the source is remembered (a datagram from the
+/// network that panics the source aborts the daemon) and reported by `run_e2e`.
+fn deliver(src: &mut NtpSource<NullCtl>, resp: &[u8]) {
+    if let Err(e) = common::catch(|| deliver_raw(src, resp)) {
+        E2E_PANIC.with(|p_| {
+            let mut p_ = p_.borrow_mut();
+            if p_.is_none() {
+                *p_ = Some(e);
+            }
+        });
+    }
+}
+
+/// Re-frame the chunk field of a genuine NTPv5 server answer so that its value has `len`
+/// bytes (bytes of the filter from `off` on; NTPv5 field lengths exclude the zero padding).
+fn resize_chunk(resp: &[u8], off: usize, len: usize) -> Option<Vec<u8>> {
+    let f = walk_efs(resp).into_iter().find(|e| e.0 == T_RESP)?;
+    let src = synthetic_bytes();
+    let mut out = resp[..f.1 - 4].to_vec();
+    out.extend_from_slice(&T_RESP.to_be_bytes());
+    out.extend_from_slice(&((len + 4) as u16).to_be_bytes());
+    for i in 0..len {
+        out.push(if off + i < 512 { src[off + i] } else { 0xEE });
+    }
+    while out.len() % 4 != 0 {
+        out.push(0);
+    }
+    out.extend_from_slice(&resp[f.3..]);
+    Some(out)
+}
+
+/// lengths used for resized chunk answers (requested: 16): 0, 1 and 8..=24 without 16
+fn resize_lengths() -> Vec<usize> {
+    let mut v = vec![0usize, 1];
+    v.extend((8..=24).filter(|l| *l != 16));
+    v
+}
+
 /// deviation kinds at a poll position: 1 = answer lost, 2 = previous answer replayed before
-/// the fresh one, 3 = fresh answer delivered twice
+/// the fresh one, 3 = fresh answer delivered twice, 100 + L = the fresh answer's chunk field
+/// re-framed to carry L bytes instead of 16 (the rest of the datagram is genuine)
 fn run_e2e(ctx: &Ctx, devs: &[(usize, u8)], polls: usize) -> String {
     let trace = format!("E;{polls};{}", devs.iter().map(|(p_, k)| format!("{p_}:{k}")).collect::<Vec<_>>().join(","));
     let filter = pb::filter_from_bytes(synthetic_bytes());
@@ -762,6 +822,8 @@ fn run_e2e(ctx: &Ctx, devs: &[(usize, u8)], polls: usize) -> String {
     let mut answered = 0usize;
     let mut prev_resp: Option<Vec<u8>> = None;
     let mut obs = String::new();
+    let mut last_resized: Option<usize> = None;
+    E2E_PANIC.with(|p_| *p_.borrow_mut() = None);
     for i in 0..polls {
         let kind = devs.iter().find(|(p_, _)| *p_ == i).map(|(_, k)| *k).unwrap_or(0);
         let Some(req) = poll_request(&mut src) else {
@@ -773,6 +835,18 @@ fn run_e2e(ctx: &Ctx, devs: &[(usize, u8)], polls: usize) -> String {
         let efs = walk_efs(&req);
         let rq: Vec<_> = efs.iter().filter(|e| e.0 == T_REQ).collect();
         let want_off = (16 * (answered % 32)) as u16;
+        if let (Some(l), 1) = (last_resized, rq.len()) {
+            let got_off = u16::from_be_bytes([req[rq[0].1], req[rq[0].1 + 1]]);
+            if got_off != want_off {
+                ctx.violation(
+                    "C34:wrong-size-accepted",
+                    format!("poll {}: an answer whose chunk field carried {l} bytes instead of 16 was accepted: the next request asks for offset {got_off} instead of repeating offset {want_off}", i - 1),
+                    &trace,
+                );
+                return obs;
+            }
+        }
+        last_resized = None;
         if rq.len() != 1 || rq[0].2 - rq[0].1 != 16 || u16::from_be_bytes([req[rq[0].1], req[rq[0].1 + 1]]) != want_off {
             ctx.violation(
                 "C34:request-sequence",
@@ -802,6 +876,18 @@ fn run_e2e(ctx: &Ctx, devs: &[(usize, u8)], polls: usize) -> String {
                 answered += 1;
                 obs.push('d');
             }
+            (Some(r), k) if k >= 100 => {
+                let l = (k - 100) as usize;
+                match resize_chunk(r, want_off as usize, l) {
+                    Some(m) => deliver(&mut src, &m),
+                    None => {
+                        ctx.violation("C34:server-slice-wrong", format!("poll {i}: answer carries no chunk field"), &trace);
+                        return obs;
+                    }
+                }
+                last_resized = Some(l);
+                obs.push('z');
+            }
             (Some(r), _) => {
                 deliver(&mut src, r);
                 answered += 1;
@@ -818,6 +904,10 @@ fn run_e2e(ctx: &Ctx, devs: &[(usize, u8)], polls: usize) -> String {
             }
         }
         prev_resp = resp;
+        if let Some(e) = E2E_PANIC.with(|p_| p_.borrow_mut().take()) {
+            ctx.violation("C34:panic", format!("poll {i}: the source panicked while handling a server answer: {e}"), &trace);
+            return obs;
+        }
         let v = ps::view(&src);
         ctx.inc("evaluations");
         match (&v.bloom_full, answered >= 32) {
@@ -860,6 +950,33 @@ fn part_e2e(ctx: &Ctx) {
             }
         }
     }
+    // resized chunk fields: every position x every length alone; combined with one other deviation
+    // next to it (quick) / anywhere (thorough); thorough also every pair of resized answers
+    let lens = resize_lengths();
+    let mut resized_runs = 0u64;
+    for p_ in 0..polls {
+        for &l in &lens {
+            let z = (p_, 100 + l as u8);
+            runs.push(vec![z]);
+            resized_runs += 1;
+            for q in 0..polls {
+                if q == p_ || (ctx.quick() && q.abs_diff(p_) > 1) {
+                    continue;
+                }
+                for k in 1..=3u8 {
+                    runs.push(vec![z, (q, k)]);
+                    resized_runs += 1;
+                }
+                if !ctx.quick() && q > p_ {
+                    for &l2 in &lens {
+                        runs.push(vec![z, (q, 100 + l2 as u8)]);
+                        resized_runs += 1;
+                    }
+                }
+            }
+        }
+    }
+    ctx.set("e2e_runs_with_resized_chunk_answers", resized_runs);
     ctx.set("e2e_runs", runs.len() as u64);
     let completed = AtomicU64::new(0);
     common::par_for_with(
@@ -1008,9 +1125,9 @@ fn check() {
     }
     ctx.rule(
         "BFS to fixpoint over the real RemoteBloomFilter for each of the 8 valid chunk sizes x 4 server filters (synthetic with pairwise distinct non-zero words; real filters of 1, 2, 3 ids): \
-         events Request(new cookie) and Deliver(target in {outstanding, most recent stale, first ever, never issued} x shape in {exact, -4, +4, half, double, empty}); states deduplicated on the probe view of \
+         events Request(new cookie) and Deliver(target in {outstanding, most recent stale, first ever, never issued} x payload length in {exact, requested-8..=requested+8, empty, 1 byte, half, double}, value built by ReferenceIdResponse::decode); states deduplicated on the probe view of \
          the real object + model with cookies canonicalised by role. Plus: new() over all u16; membership over 4096 window ids and all 298 subsets (size 1..3) of 12 pool ids; to_response over 606 lengths x 529 offsets; \
-         end to end source<->server runs of 36 polls with every placement of <=2 (quick) / <=3 (thorough) deviations {lost, stale replay, duplicate}; 129 lengths x 139 offsets of hand-framed requests to the real server. \
+         end to end source<->server runs of 36 polls with every placement of <=2 (quick) / <=3 (thorough) deviations {lost, stale replay, duplicate} plus answers whose chunk field is re-framed to 0, 1, 8..=24 (!= 16) bytes at every position; 129 lengths x 139 offsets of hand-framed requests to the real server. \
          Distinct & non-trivial = (chunk size, filter) searches, membership subsets, e2e deviation sets.",
     );
     ctx.assume("the server's filter does not change during a transfer; cookies of different requests differ (they are random 64-bit values in the real client)");
